@@ -97,8 +97,10 @@ impl Now {
     ///
     /// Enable with the `sys` feature flag.
     pub fn zoneddatetime_iso(timezone: Option<TimeZone>) -> TemporalResult<ZonedDateTime> {
-        let timezone =
-            timezone.unwrap_or(TimeZone::IanaIdentifier(crate::sys::get_system_timezone()?));
+        let timezone = match timezone {
+            Some(timezone) => timezone,
+            None => TimeZone::IanaIdentifier(crate::sys::get_system_timezone()?),
+        };
         let system_nanos = crate::sys::get_system_nanoseconds()?;
         let epoch_nanos = EpochNanoseconds::try_from(system_nanos)?;
         Now::zoneddatetime_iso_with_system_info(epoch_nanos, timezone)
